@@ -12,8 +12,11 @@ rule = ("scripts = 'p fmt <description> <sect flags> <opt flags>' then groups of
         "(event list through a recording handler) and 'p node' (target tree before/after), closed by 'p end' "
         "(allocation balance + LeakSanitizer); stream 1 enumerates EVERY string up to length 4 (length 5 where that is at most 60000 strings; thorough: up "
         "to 600000 strings per length, i.e. length 5 everywhere and 6 for the small alphabets) over the format's significant "
-        "characters + 'a','1',' ','\\n','\"' for each of 10 format descriptions covering the four format families; stream 2 = long tokens (254..257 bytes, thorough 65534..65537) as name/value/section "
-        "name; stream 3 = grammar-generated files mutated by delete/duplicate/flip x name flag sets x handler "
+        "characters + 'a','1',' ','\\n','\"' for each of 10 format descriptions covering the four format families; stream 2 = long tokens (254..257 bytes, thorough also 65534..65537 through both entry points) as name/value/section "
+        "name, plus in every tier names and values of 65534..65537 bytes through mpt_parse_node into an empty and a "
+        "filled target (one script each, closed by the allocation balance); stream 2b = formats WITHOUT assign "
+        "character (7 descriptions) x option names of 1..300 bytes around the path buffer's allocation steps x empty / "
+        "short values (the recording handler reads every value and checks that it lies in the stored data); stream 3 = grammar-generated files mutated by delete/duplicate/flip x name flag sets x handler "
         "refusals x pre-populated target trees x read errors; non-trivial = a script in which the real code "
         "delivered at least one element to the handler or built a node (event list / tree not empty), counted "
         "per distinct script")
@@ -124,6 +127,66 @@ def long_tokens(tier):
                 for i, inp in enumerate(inputs):
                     lines = [fmt_line(desc, flags), "p input " + hx(inp), "p config", "p node", "p tree", "p end"]
                     out.append(("long:%d:%s:%d:%x" % (L, name, i, flags[0]), lines))
+    # the 16 bit limits (identifier length, former valid counter) on the tree builder path, every tier:
+    # names and values of 65534..65537 bytes, as option / section / value, with and without a value behind
+    # a refused name, into an empty and into a filled target; one script per case so that a leak is
+    # attributed to it ('p end' compares the allocation balance and asks LeakSanitizer)
+    for L in (65534, 65535, 65536, 65537):
+        N = "n" * L
+        big = [
+            ("pre-default", None, "%s=some value\n" % N),
+            ("pre-default", None, "a=%s\n" % N),
+            ("pre-default", None, "%s {\nb=2\n}\nc=3\n" % N),
+            ("pre-default", None, "s {\n%s = \"v w\"\n}\n" % N),
+            ("pre-semi", "{*} =;#", "sect {\n  %s = some value;\n}\n" % N),
+            ("pre-semi", "{*} =;#", "sect {\n  k = %s;\n}\n" % N),
+            ("sep", "[ ] = #", "[s]\n%s=v\n" % N),
+            ("sep", "[ ] = #", "[%s]\nb=2\n" % N),
+            ("enc-same", "|x| = #", "|s\n%s = v\n|t\n" % N),
+            ("opt", "._. = #", "%s=%s\n" % (N, "v" * 300)),
+        ]
+        for i, (name, desc, inp) in enumerate(big):
+            for root in (".", "61(62=31),63=32"):
+                lines = [fmt_line(desc), "p root " + root, "p input " + hx(inp), "p node", "p end"]
+                out.append(("big:%d:%s:%d:%s" % (L, name, i, "e" if root == "." else "f"), lines))
+    return out
+
+
+NOASSIGN = [
+    # (name, description): white space is the assign character
+    ("opt", " _    #"),
+    ("opt-semi", "._.  ;#"),
+    ("sep", "[ ]   #"),
+    ("sep-semi", "[ ]  ;#"),
+    ("enc-same", "|x|   #"),
+    ("enc-diff", "{x}   #"),
+    ("pre", "{*}   #"),
+]
+
+
+def noassign(tier):
+    """formats without assign character: an option name followed by white space and an empty (or short) value;
+    names around the allocation steps of the path buffer (first 64 bytes, then steps of 128)"""
+    out = []
+    lens = [1, 2, 7, 30, 31, 32, 33, 34, 40, 59, 60, 61, 63, 64, 65, 100, 120, 127, 128, 129, 190, 200, 255, 256, 300]
+    if tier != "quick":
+        lens += list(range(35, 59, 3)) + [500, 1000, 4000]
+    tails = [" \n", "\t\n", "  # c\n", " ;", " \n\n", " v\n", "  \"\"\n", " "]
+    for name, desc in NOASSIGN:
+        for L in lens:
+            N = "k" * L
+            inputs = [N + t for t in tails]
+            inputs += ["a 1\n" + N + " \n" + N + " \nz 2\n"]
+            if desc[0] in "[|{":
+                op, cl = desc[0], ("]" if desc[0] == "[" else "")
+                inputs += ["%sS%s\n%s \n" % (op, cl, N), "%sS%s\nb 1\n%s \n%sT%s\n%s \n" % (op, cl, N, op, cl, N)]
+            if desc[1] == "*":
+                inputs += ["S {\n%s \n}\n" % N]
+            lines = [fmt_line(desc)]
+            for inp in inputs:
+                lines += ["p input " + hx(inp), "p config", "p root .", "p node"]
+            lines.append("p end")
+            out.append(("noassign:%s:%d" % (name, L), lines))
     return out
 
 
@@ -260,6 +323,7 @@ def scripts(tier, seed, scale=1):
     out = []
     out += exhaustive(tier)
     out += long_tokens(tier)
+    out += noassign(tier)
     out += grammar(tier, seed, scale)
     out += formats(tier, seed, scale)
     return out
